@@ -115,6 +115,17 @@ Theorem C18_face_normal_is_unit_right_hand : forall p0 p1 p2 : RV,
 Proof. exact tri_normal_unit_rh. Qed.
 Print Assumptions C18_face_normal_is_unit_right_hand.
 
+(* generateNormals: the per-triangle normal it accumulates (cross product of the two UNIT edge
+   vectors, normalised) is the unit right-hand normal of a non-degenerate triangle - so by
+   C18_vertex_sum every vertex row is the sum of the unit right-hand normals of its incident
+   (triangle, corner) pairs *)
+Theorem C18_generated_face_normal_is_unit_right_hand : forall (verts : list RV) (t : tri),
+  face_cross r_ops verts t <> vzero r_ops ->
+  face_n r_ops runit verts t = runit (face_cross r_ops verts t) /\
+  rdot (face_n r_ops runit verts t) (face_n r_ops runit verts t) = rI r_ops.
+Proof. exact face_n_unit_rh. Qed.
+Print Assumptions C18_generated_face_normal_is_unit_right_hand.
+
 (* a normalised Gram-Schmidt tangent is a unit vector orthogonal to the unit normal *)
 Theorem C18_tangent_unit_orthogonal : forall n t : RV,
   rdot n n = rI r_ops -> project r_ops n t <> vzero r_ops ->
